@@ -19,6 +19,8 @@ type xmlBatch struct {
 	// Remote: the definitions are fetched by URL; an include is then an address relative to the file that includes it
 	// (local mode: relative to the directory the generator runs in)
 	Remote bool
+	// Link: the generator runs in link mode (--link): included definitions are referred to, not copied
+	Link bool
 }
 
 var scalarTypes = []string{"double", "uint64_t", "int64_t", "float", "uint32_t", "int32_t", "uint16_t", "int16_t", "uint8_t", "int8_t", "char"}
@@ -42,7 +44,7 @@ func (n *nameSpace) take(s string) bool {
 }
 
 var fieldWords = []string{"alt", "lat", "lon", "vx", "vy", "q", "param", "time", "usec", "boot", "ms", "target", "system", "component", "seq",
-	"type", "mode", "flags", "rate", "id", "count", "data", "len", "temp", "volt", "cur", "x", "y", "z", "roll", "pitch", "yaw", "gps", "raw", "chan", "rssi", "msl"}
+	"type", "mode", "flags", "rate", "id", "count", "data", "len", "temp", "volt", "cur", "x", "y", "z", "roll", "pitch", "yaw", "gps", "raw", "chan", "rssi", "msl", "id", "uid", "uuid", "uri", "url", "cpu", "ram", "ip", "api", "http"}
 
 func genFieldName(r *vh.RNG, ns *nameSpace) string {
 	for {
@@ -84,7 +86,9 @@ func genFieldName(r *vh.RNG, ns *nameSpace) string {
 	}
 }
 
-var msgWords = []string{"VF", "STATUS", "RAW", "GPS", "IMU", "SCALED", "ATTITUDE", "TARGET", "ESC", "TELEMETRY", "PARAM", "VALUE", "CMD", "ACK", "INFO", "EXT", "DATA", "HIL", "RC", "NAV"}
+var msgWords = []string{"VF", "STATUS", "RAW", "GPS", "IMU", "SCALED", "ATTITUDE", "TARGET", "ESC", "TELEMETRY", "PARAM", "VALUE", "CMD", "ACK", "INFO", "EXT", "DATA", "HIL", "RC", "NAV",
+	// words that Go style guides write as initialisms (ID, URL, ...): in a MAVLink name they are words like any other
+	"ID", "UID", "UUID", "URI", "URL", "CPU", "RAM", "TCP", "UDP", "HTTP", "API", "IP", "OK", "EOF", "ASCII", "JSON", "XML", "TLS", "VM", "DNS"}
 
 func genMsgName(r *vh.RNG, ns *nameSpace) string {
 	for {
@@ -408,7 +412,51 @@ func genBatch(r *vh.RNG, prefix string, nDialects int) *xmlBatch {
 			}(), Name: genMsgName(r, ns), Fields: []ref.XField{{Type: "uint32_t", Name: "t"}}}}}
 		b.Files[top.File] = top
 		b.Tops = append(b.Tops, top.File)
+		// bitmask enums that are merged from an include-only base definition and an extension in the dialect that includes it:
+		// base ascending with a high flag and the extension adding LOWER flags; base descending; extension between the base's
+		// flags; a composite of base and extension flags
+		up := strings.ToUpper(strings.Trim(prefix, "_"))
+		base := &ref.XDialect{File: prefix + "_mergebase.xml", Enums: []ref.XEnum{
+			{Name: "VF_" + up + "_MERGE_UP", Bitmask: true, Entries: []ref.XEnumEntry{{Name: "VF_" + up + "_MU_A", Value: 1, ValueText: "1"}, {Name: "VF_" + up + "_MU_B", Value: 2, ValueText: "2"}, {Name: "VF_" + up + "_MU_HIGH", Value: 0x8000, ValueText: "0x8000"}}},
+			{Name: "VF_" + up + "_MERGE_DOWN", Bitmask: true, Entries: []ref.XEnumEntry{{Name: "VF_" + up + "_MD_A", Value: 128, ValueText: "128"}, {Name: "VF_" + up + "_MD_B", Value: 16, ValueText: "16"}, {Name: "VF_" + up + "_MD_C", Value: 2, ValueText: "2"}}},
+		}}
+		ext := &ref.XDialect{File: prefix + "_mergetop.xml", Version: "2", Includes: []string{base.File}, Enums: []ref.XEnum{
+			{Name: "VF_" + up + "_MERGE_UP", Bitmask: true, Entries: []ref.XEnumEntry{{Name: "VF_" + up + "_MU_C", Value: 4, ValueText: "4"}, {Name: "VF_" + up + "_MU_D", Value: 8, ValueText: "0b1000"}, {Name: "VF_" + up + "_MU_AD", Value: 9, ValueText: "9"}}},
+			{Name: "VF_" + up + "_MERGE_DOWN", Bitmask: true, Entries: []ref.XEnumEntry{{Name: "VF_" + up + "_MD_D", Value: 64, ValueText: "64"}, {Name: "VF_" + up + "_MD_E", Value: 1, ValueText: "1"}, {Name: "VF_" + up + "_MD_F", Value: 256, ValueText: "2**8"}}},
+		}, Messages: []ref.XMessage{{ID: func() uint32 {
+			for {
+				id := uint32(r.Intn(1 << 24))
+				if !ids[id] {
+					ids[id] = true
+					return id
+				}
+			}
+		}(), Name: genMsgName(r, ns), Fields: []ref.XField{{Type: "uint16_t", Name: "m"}}}}}
+		b.Files[base.File], b.Files[ext.File] = base, ext
+		b.Tops = append(b.Tops, ext.File)
 	}
+	return b
+}
+
+// genLinkBatch: link mode. The included definition is named like a shipped dialect ("minimal.xml", a subset of the real one:
+// the bitmask enum MAV_MODE_FLAG with its eight flags) and is NOT generated; the dialect that includes it extends that
+// enum with two more flags, so the merged enum belongs to the generated package - still a bitmask, with all ten flags.
+func genLinkBatch(r *vh.RNG, prefix string) *xmlBatch {
+	b := &xmlBatch{Files: map[string]*ref.XDialect{}, Link: true}
+	ns := &nameSpace{used: map[string]bool{}}
+	flag := func(name string, v uint64) ref.XEnumEntry {
+		return ref.XEnumEntry{Name: name, Value: v, ValueText: fmt.Sprintf("%d", v)}
+	}
+	b.Files["minimal.xml"] = &ref.XDialect{File: "minimal.xml", Version: "3", Enums: []ref.XEnum{{Name: "MAV_MODE_FLAG", Bitmask: true, Entries: []ref.XEnumEntry{
+		flag("MAV_MODE_FLAG_SAFETY_ARMED", 128), flag("MAV_MODE_FLAG_MANUAL_INPUT_ENABLED", 64), flag("MAV_MODE_FLAG_HIL_ENABLED", 32), flag("MAV_MODE_FLAG_STABILIZE_ENABLED", 16),
+		flag("MAV_MODE_FLAG_GUIDED_ENABLED", 8), flag("MAV_MODE_FLAG_AUTO_ENABLED", 4), flag("MAV_MODE_FLAG_TEST_ENABLED", 2), flag("MAV_MODE_FLAG_CUSTOM_MODE_ENABLED", 1)}}}}
+	up := strings.ToUpper(strings.Trim(prefix, "_"))
+	top := &ref.XDialect{File: prefix + "linked.xml", Version: "3", Includes: []string{"minimal.xml"}, Enums: []ref.XEnum{
+		{Name: "MAV_MODE_FLAG", Bitmask: true, Entries: []ref.XEnumEntry{flag("VF_"+up+"_MODE_FLAG_X", 256), flag("VF_"+up+"_MODE_FLAG_Y", 1<<20)}},
+		{Name: "VF_" + up + "_LINK_KIND", Entries: []ref.XEnumEntry{flag("VF_"+up+"_LINK_KIND_A", 0), flag("VF_"+up+"_LINK_KIND_B", 7)}},
+	}, Messages: []ref.XMessage{{ID: uint32(40000 + r.Intn(10000)), Name: genMsgName(r, ns), Fields: []ref.XField{{Type: "uint32_t", Name: "mode", Enum: "MAV_MODE_FLAG"}, {Type: "uint8_t", Name: "kind", Enum: "VF_" + up + "_LINK_KIND"}}}}}
+	b.Files[top.File] = top
+	b.Tops = []string{top.File}
 	return b
 }
 
